@@ -218,9 +218,11 @@ CHECKS = {
         "against a framing-aware NCP of version V (4..14, 15, 16, 31, 255) built from an independent ASH endpoint and a front "
         "end that answers the legacy version query and then ignores anything not in V's own layout. Enumerated fault-free for "
         "every V x {serial, socket://} x {spontaneous RSTACK absent/seen} x second reset via {reset()+version(), "
-        "stop_ezsp()+startup_reset()}; every single drop/corruption/duplication on each of the first 10 (thorough 40) frames; "
+        "stop_ezsp()+startup_reset()} x {bring-up only, ordinary traffic (a plain command and a handler-level helper) after "
+        "each bring-up, a request made between reset() and the repeated negotiation}; every single drop/corruption/duplication on each of the first 10 (thorough 40) frames; "
         "plus Hypothesis multi-fault plans. Checked: first write is RST, first DATA after every reset is the legacy version "
-        "query, second query in V's layout, adopted version and table, no request the NCP cannot parse, write_config succeeds, "
+        "query, second query in V's layout, adopted version and table, no request the NCP cannot parse, a request made after a "
+        "reset and before the negotiation is repeated is legacy-framed, write_config and ordinary traffic succeed, "
         "clean-line bring-up never fails, faulty lines end only in success or timeout/link errors, never a hang.",
         "NCP negotiation behaviour is written from UG100 as understood; a late spontaneous RSTACK is judged for safety only.",
         "fault enumeration (single-fault positions x versions x paths) + Hypothesis fault plans on the full stack in virtual time",
